@@ -24,11 +24,11 @@ LEVEL_TEXT = {
     "C12": "Runtime monitoring of interleaved trees on one goroutine: per-tree reference and shape monitors, twin-run comparison (same history alone), fresh-tree twins after a tree is emptied, with measured cross-tree node reuse for every size class (coverage floor).",
     "C13": "Runtime monitoring of caller memory: canary-filled backing arrays compared byte for byte after each call; content re-verified after the caller scribbles over or reuses its buffers.",
     "C14": "Runtime monitoring of the iterator protocol: an instrumented yield records deliveries, stops at every position and counts callbacks after false; the same sequence value is re-drained and consumed by nested consumers.",
-    "C15": "Runtime monitoring with the structural hook: a canonical digest of the whole index before and after every read-only or no-op call.",
+    "C15": "Runtime monitoring with the structural hook: a canonical digest of the whole index before and after every read-only or no-op call, plus a differential oracle for the 'hence' clause: the mutating calls are replayed into a never-queried tree and every observable answer must agree.",
     "C16": "Sanitizer as oracle: the worker is built with -race and runs seeded multi-goroutine scenarios under several GOMAXPROCS/goroutine counts; any report block naming library frames is a violation; results are also compared with sequential references.",
     "C17": "Runtime heap measurement: live heap after forced collections before/after isolated phases of N operations per method, one process per kind, byte/operation thresholds far below a per-operation leak.",
     "C18": "Runtime monitoring under GC stress: checkptr-instrumented build, GOGC=1, clobberfree, forced collections; deep equality against recomputed recipes so that only the tree keeps objects alive; ASan build in thorough.",
-    "C19": "Translation validation by observed execution: the repository's own generator pipeline is executed in a scratch copy and its output compared byte for byte with the checked-in file, per instantiation.",
+    "C19": "Translation validation by observed execution: the repository's own generator pipeline is executed repeatedly in a scratch copy and every output compared byte for byte with the checked-in file, per instantiation.",
 }
 
 DESIGN_REF = {p: "DESIGN.md section 4 (%s)" % p for p in LEVEL_TEXT}
